@@ -6,6 +6,8 @@ import UscxmlVerif.Proofs.ExitClosed
 import UscxmlVerif.Proofs.ParentsFast
 import UscxmlVerif.Proofs.EntryDoc
 import UscxmlVerif.Proofs.DownOk
+import UscxmlVerif.Proofs.DownRunFast
+import UscxmlVerif.Proofs.RootActive
 /-!
 # C02 — the active configuration is legal after every micro-step (the part that needs no assumption)
 
@@ -86,21 +88,31 @@ theorem step_keeps_parents (c : Chart) (hcoh : Proofs.Struct.Coherent c = true) 
     (eng : Engine) (e : EState) (h : Proofs.Parents.PC c e) : Proofs.Parents.PC c (engineStep eng c e).1 :=
   Proofs.ParentsFast.engineStep_pc c hcoh hi (Proofs.EntryClosed.eok_of_entryOk hk) hp hpf eng e h
 
-/-- **partial** (clauses 5 and 6 of `legal`, the "at least" halves, LargeMicroStep, history-free charts): after every sequence of API
+/-- **partial** (clauses 5 and 6 of `legal`, the "at least" halves, both engines, history-free charts): after every sequence of API
 operations every active parallel state has all its children active and every active compound state has an active child state. The
 chart hypotheses are decidable (`DownOk`: completions and initial transitions point downwards in document order, `<initial>` elements
 precede their siblings, children lists are complete, ...) and evaluated on every generated chart. Not covered: "at most one child"
-of a compound state, FastMicroStep, charts with history states. -/
+of a compound state, and charts with history states. -/
 theorem active_states_are_complete_partial (c : Chart) (hcoh : Proofs.Struct.Coherent c = true) (hi : Proofs.Interval.IntervalOK c = true)
     (hk : Proofs.EntryClosed.EntryOk c = true) (hd : Proofs.DownOk.DownOk c = true) (hp : Proofs.Parents.SelPlain c = true)
-    (ops : List Op) : Proofs.Down.DownClosed c (run .large c ops).a.e.config :=
-  (Proofs.DownRun.run_dc c hcoh hi (Proofs.EntryClosed.eok_of_entryOk hk) (Proofs.DownOk.dok_of_downOk hd) hp ops).2
+    (hpf : Proofs.ParentsFast.SelPlainF c = true) (eng : Engine) (ops : List Op) :
+    Proofs.Down.DownClosed c (run eng c ops).a.e.config :=
+  (Proofs.DownRunFast.run_dc c hcoh hi (Proofs.EntryClosed.eok_of_entryOk hk) (Proofs.DownOk.dok_of_downOk hd) hp hpf eng ops).2
 
-/-- one step of LargeMicroStep keeps it, from any state that has the invariant -/
+/-- one step of either engine keeps parent closure and downward completeness, from any state that has them -/
 theorem step_keeps_complete (c : Chart) (hcoh : Proofs.Struct.Coherent c = true) (hi : Proofs.Interval.IntervalOK c = true)
     (hk : Proofs.EntryClosed.EntryOk c = true) (hd : Proofs.DownOk.DownOk c = true) (hp : Proofs.Parents.SelPlain c = true)
-    (e : EState) (h : Proofs.DownRun.DC c e) : Proofs.DownRun.DC c (Large.step c e).1 :=
-  Proofs.DownRun.large_step_dc c hcoh hi (Proofs.EntryClosed.eok_of_entryOk hk) (Proofs.DownOk.dok_of_downOk hd) hp e h
+    (hpf : Proofs.ParentsFast.SelPlainF c = true) (eng : Engine) (e : EState) (h : Proofs.DownRun.DC c e) :
+    Proofs.DownRun.DC c (engineStep eng c e).1 :=
+  Proofs.DownRunFast.engineStep_dc c hcoh hi (Proofs.EntryClosed.eok_of_entryOk hk) (Proofs.DownOk.dok_of_downOk hd) hp hpf eng e h
+
+/-- **partial** (clause 1 of `legal`, history-free charts, both engines): once the interpreter has taken its first step the root is
+active - and stays so (`root_is_never_exited_partial`) -/
+theorem root_is_active_partial (c : Chart) (hcoh : Proofs.Struct.Coherent c = true) (hk : Proofs.EntryClosed.EntryOk c = true)
+    (hd : Proofs.DownOk.DownOk c = true) (eng : Engine) (ops : List Op) :
+    (run eng c ops).a.e.pristine = true ∨ 0 ∈ (run eng c ops).a.e.config :=
+  Proofs.RootActive.run_rootInv c (Proofs.Struct.coh_of_coherent hcoh) (Proofs.EntryClosed.eok_of_entryOk hk)
+    (Proofs.DownOk.dok_of_downOk hd) eng ops
 
 example : Proofs.DownOk.DownOk Properties.C05.sample = true := by decide
 
